@@ -20,6 +20,10 @@ CHECKS = {
   "Differential check of the directory against an independent reference encoder and rotation rule after every settled flush (names, bytes, abutting offsets), of each returned segment, on_disk_size, stat() and dump(); plus the file-name codec on boundary/generated u64 offsets.",
   "Reference encoder/formatter in harness/src/refcodec.rs; compared only after flush + worker idle.",
   "property-based testing (proptest): differential against a reference encoder/layout model", "DESIGN.md §4 C11"),
+ "C16": ("exploration",
+  "Generated legal histories interleaved with argument probes drawn from integer limits and values around purged/last for every public operation incl. update_state; every call and the observers that follow run under catch_unwind in a build with overflow checks and debug assertions on.",
+  "Only panics are judged after an unmodelled probe. Known class index-near-u64max (known_findings.json) is reported as KNOWN-FINDING and ends the affected case.",
+  "property-based testing (proptest): boundary-value argument fuzzing over reachable states, panic oracle", "DESIGN.md §4 C16"),
 }
 
 ALL = [f"C{i:02d}" for i in range(1, 17)]
